@@ -31,7 +31,9 @@ EXP = ["sum", "mean", "count", "var", "std", "size"]
 def case_strategy(draw, tier="quick"):
     fam = draw(st.sampled_from(["rolling", "rolling", "cum", "expanding", "ewm"]))
     timed = fam == "rolling" and draw(st.integers(0, 2)) == 0
-    t = draw(dc.table(max_rows=12, time_index=timed, min_rows=2))
+    # the other families over a time index as well: timestamps repeat, also across batch borders
+    stamped = timed or (fam != "rolling" and draw(st.integers(0, 3)) == 0)
+    t = draw(dc.table(max_rows=12, time_index=stamped, min_rows=2))
     n = len(t["rows"])
     cuts = draw(dc.cuts_for(n))
     cuts2 = draw(dc.cuts_for(n))
